@@ -148,7 +148,7 @@ Proof. vm_compute. reflexivity. Qed.
      coerce_fn pf k v        the two shipped coercions as functions on driver values (None = error)
      g_of pf conf name       the coercion configured for a column name (identity [Some] when there is none)
      fix_val fixed p v       float.Fixed applied to a float64 driver value when p > 0, other values unchanged
-     prep g fixed p vals     the values of a column after coercion and rounding; NULLs bypass both;
+     prep g fixed p vals     the values of a column after coercion and rounding; NULLs skip both;
                              None as soon as the coercion reports an error for one value
      spec_read_gen           IOCorr.spec_read with the values of column j going through
                              prep (g_of pf conf name_j) fixed (q_precision conf) first
